@@ -5,6 +5,7 @@ package evaluator
 import (
 	"math"
 	"strconv"
+	"strings"
 )
 
 // C01 — expressions evaluate as the language definition prescribes.
@@ -494,5 +495,84 @@ func ZZC01Args() {
 		zzAssert(p.trace[0] == "print:"+f.out+" "+g.out+"\n", "C01 args: whitespace separates the two arguments, whatever postfix form the first one has")
 	}
 	zzReach("args-ok")
+	zzWitness("end")
+}
+
+// ZZC01Effects: elements of one argument list / array literal / map literal
+// that read state which later elements of the same list change — the global
+// err and errmsg (updated in place by conversions) and an ordinary global
+// changed by a called function. Each element denotes the value the state had
+// when its turn came (left-to-right evaluation).
+func ZZC01Effects() {
+	N := zzParam("NE", 3)
+	n := 2 + zzChoice("n", N-1)
+	kinds := []string{"err", "(str2num \"x\")", "(str2num \"1\")", "g", "(bump)", "errmsg", "(str2bool \"zz\")", "(iserr)"}
+	errv, g := false, 10.0
+	msg := ""
+	var parts, wants []string
+	for i := 0; i < n; i++ {
+		k := zzChoice("elem", len(kinds))
+		parts = append(parts, kinds[k])
+		switch k {
+		case 0, 7:
+			wants = append(wants, strconv.FormatBool(errv))
+		case 1:
+			errv, msg = true, "str2num: cannot parse \"x\""
+			wants = append(wants, "0")
+		case 2:
+			errv, msg = false, ""
+			wants = append(wants, "1")
+		case 3:
+			wants = append(wants, zzN(g))
+		case 4:
+			g++
+			wants = append(wants, zzN(g))
+		case 5:
+			wants = append(wants, msg)
+		case 6:
+			errv, msg = true, "str2bool: cannot parse \"zz\""
+			wants = append(wants, "false")
+		}
+	}
+	pre := "g := 10\nfunc bump:num\n    g = g + 1\n    return g\nend\nfunc iserr:bool\n    return err\nend\nfunc show a:any b:any c:any\n    print a b c\nend\n"
+	ctx := zzChoice("ctx", 4)
+	var src, want string
+	list := strings.Join(parts, " ")
+	switch ctx {
+	case 0: // arguments of a variadic built-in
+		src = pre + "print " + list + "\n"
+		want = "print:" + strings.Join(wants, " ") + "\n"
+	case 1: // array literal
+		src = pre + "a := [" + list + "]\nprint a\n"
+		want = "print:[" + strings.Join(wants, " ") + "]\n"
+	case 2: // map literal values
+		var kv, kw []string
+		for i := range parts {
+			kv = append(kv, "k"+strconv.Itoa(i)+":"+parts[i])
+			kw = append(kw, "k"+strconv.Itoa(i)+":"+wants[i])
+		}
+		src = pre + "m := {" + strings.Join(kv, " ") + "}\nprint m\n"
+		want = "print:{" + strings.Join(kw, " ") + "}\n"
+	case 3: // arguments of a user function
+		for len(parts) < 3 {
+			parts = append(parts, "0")
+			wants = append(wants, "0")
+		}
+		src = pre + "show " + strings.Join(parts, " ") + "\n"
+		want = "print:" + strings.Join(wants, " ") + "\n"
+	}
+	p := &zzPlat{}
+	ev := NewEvaluator(p)
+	prog := zzMustParse(ev, src, "C01 effects")
+	if prog == nil {
+		return
+	}
+	err := ev.Eval(prog)
+	zzAssert(err == nil, "C01 effects: program runs")
+	if p.out() != want {
+		zzLog("C01 effects: " + src + "want " + want + "got  " + p.out())
+	}
+	zzAssert(p.out() == want, "C01 effects: every element of a list denotes the value the program state had when its turn came, left to right")
+	zzReach("effects-ok")
 	zzWitness("end")
 }
